@@ -429,23 +429,38 @@ func runC16(c *Ctx) {
 	// ---- initial state: constant stored to st in NewScanner and Reset
 	inits := map[int64]bool{}
 	nInit := 0
-	for _, fn := range []*ssa.Function{newFn, resetFn} {
-		allInstrs(fn, func(in ssa.Instruction) {
-			s, ok := in.(*ssa.Store)
-			if !ok {
-				return
-			}
-			if fa, ok := s.Addr.(*ssa.FieldAddr); ok {
-				if _, f := fieldVarOf(fa); sameField(f, stF) {
-					if v, ok := constInt(s.Val); ok {
-						inits[v] = true
-						nInit++
-					} else {
-						inits[-1] = true
+	for _, top := range []*ssa.Function{newFn, resetFn} {
+		// the store may sit in a helper (restart(st, err)) that is handed the state as an argument:
+		// resolve a parameter at the call sites inside this entry point's call scope
+		sc := buildCallScope(top)
+		seenTop := false
+		for _, fn := range sc.fns {
+			allInstrs(fn, func(in ssa.Instruction) {
+				s, ok := in.(*ssa.Store)
+				if !ok {
+					return
+				}
+				if fa, ok := s.Addr.(*ssa.FieldAddr); ok {
+					if _, f := fieldVarOf(fa); sameField(f, stF) {
+						vals := []ssa.Value{s.Val}
+						if p, isP := s.Val.(*ssa.Parameter); isP && fn != top {
+							vals = sc.paramArgs(p)
+						}
+						for _, v0 := range vals {
+							if v, ok := constInt(v0); ok {
+								inits[v] = true
+								if !seenTop {
+									nInit++
+									seenTop = true
+								}
+							} else {
+								inits[-1] = true
+							}
+						}
 					}
 				}
-			}
-		})
+			})
+		}
 	}
 	if len(inits) != 1 || inits[-1] || nInit < 2 {
 		c.undecided("R-FST-TOTAL", "initial-state", newFn.Pos(), fmt.Sprintf("NewScanner and Reset must store one and the same constant state; found %v", inits))
@@ -497,6 +512,64 @@ func runC16(c *Ctx) {
 				}
 				c.judge(paired, "R-FST-TOTAL", key, in.Pos(), "row-less state stored together with err = io.EOF, so Next returns before indexing", "row-less state stored without making Next unreachable (index out of range on the next byte)")
 				return
+			}
+			// a helper that is handed the state (and the error) as arguments: judged at each of its call sites
+			if p, isP := s.Val.(*ssa.Parameter); isP && origin(fn) != nextFn {
+				pi := -1
+				for i, q := range fn.Params {
+					if q == p {
+						pi = i
+					}
+				}
+				// the error stored in the same block, if it is a parameter too
+				ei := -1
+				for _, in2 := range in.Block().Instrs {
+					if s2, ok := in2.(*ssa.Store); ok {
+						if fa2, ok := s2.Addr.(*ssa.FieldAddr); ok {
+							if _, f2 := fieldVarOf(fa2); sameField(f2, errF) {
+								for i, q := range fn.Params {
+									if s2.Val == ssa.Value(q) {
+										ei = i
+									}
+								}
+							}
+						}
+					}
+				}
+				nSites, bad := 0, ""
+				for _, g := range P.PkgFuncs("shell") {
+					allInstrs(g, func(in3 ssa.Instruction) {
+						call, ok := in3.(*ssa.Call)
+						if !ok || origin(staticCallee(&call.Call)) != origin(fn) || pi < 0 || pi >= len(call.Call.Args) {
+							return
+						}
+						nSites++
+						v, isK := constInt(call.Call.Args[pi])
+						if !isK {
+							bad = "a non-constant state is passed at " + P.pos(call.Pos())
+							return
+						}
+						if len(m.update[v]) == len(m.className) {
+							return
+						}
+						// row-less state: the error argument must be io.EOF
+						eof := false
+						if ei >= 0 && ei < len(call.Call.Args) {
+							if ld, ok := call.Call.Args[ei].(*ssa.UnOp); ok {
+								if gl, ok := ld.X.(*ssa.Global); ok && gl.Pkg.Pkg.Path() == "io" && gl.Name() == "EOF" {
+									eof = true
+								}
+							}
+						}
+						if !eof {
+							bad = "a row-less state is passed without err = io.EOF at " + P.pos(call.Pos())
+						}
+					})
+				}
+				if nSites > 0 {
+					c.judge(bad == "", "R-FST-TOTAL", key, in.Pos(), fmt.Sprintf("%d call site(s) pass a constant state with a full row, or a row-less state together with io.EOF", nSites), bad+": Next would index a missing row on the next byte")
+					return
+				}
 			}
 			// non-constant: must be the entry's state inside Next (checked by R-FST-INTERP)
 			if origin(fn) != nextFn {
